@@ -202,31 +202,33 @@ structure Tok where
   deriving Repr, DecidableEq
 
 /-- the location fields of `mmLexInfo`: `loc.Line`, `loc.Col`, `incCol`,
-`len(token)` -/
+`token` (the previous token) -/
 structure Loc where
   line : Nat
   col : Nat
   incCol : Bool
-  tokLen : Nat
+  tok : Bytes
   deriving Repr, DecidableEq
 
-def startLoc : Loc := ⟨1, 1, false, 0⟩
+def startLoc : Loc := ⟨1, 1, false, []⟩
 
-/-- the loop over a SKIP token: `'\n'` → `Line++; Col = 0`, then `Col++` -/
+/-- `SourceLoc.advance` (over a SKIP token, and over the previous token when
+`incCol`): `'\n'` → `Line++; Col = 0`, then `Col++` -/
 def skipLoc : Bytes → Nat → Nat → Nat × Nat
   | [], line, col => (line, col)
   | b :: r, line, col => if b == 0x0A then skipLoc r (line + 1) 1 else skipLoc r line (col + 1)
 
 /-- one iteration of the loop of `Lex` after `nextToken`: the token with the
-location `Lex` has when it looks at it (`Col += len(previous token)` if
-`incCol`), and the location fields afterwards. -/
+location `Lex` has when it looks at it (the location is first advanced over
+the previous token if `incCol` — newlines inside it, i.e. inside a string
+literal, count), and the location fields afterwards. -/
 def stepLoc (T : Tables) (l : Loc) (id : Nat) (text : Bytes) : Tok × Loc :=
-  let col0 := if l.incCol then l.col + l.tokLen else l.col
+  let p : Nat × Nat := if l.incCol then skipLoc l.tok l.line l.col else (l.line, l.col)
   if id == skipId T then
-    (⟨id, text, l.line, col0⟩, ⟨(skipLoc text l.line col0).1, (skipLoc text l.line col0).2, false, l.tokLen⟩)
+    (⟨id, text, p.1, p.2⟩, ⟨(skipLoc text p.1 p.2).1, (skipLoc text p.1 p.2).2, false, l.tok⟩)
   else if id == commentId T then
-    (⟨id, text, l.line, col0⟩, ⟨l.line + 1, 1, false, l.tokLen⟩)
-  else (⟨id, text, l.line, col0⟩, ⟨l.line, col0, true, text.length⟩)
+    (⟨id, text, p.1, p.2⟩, ⟨(skipLoc text p.1 p.2).1, (skipLoc text p.1 p.2).2, false, l.tok⟩)
+  else (⟨id, text, p.1, p.2⟩, ⟨p.1, p.2, true, text⟩)
 
 /-- does the loop around `Lex` stop after this token: `Lex` RETURNED it (it is
 neither SKIP nor COMMENT) and it is INVALID -/
